@@ -225,6 +225,26 @@ def run(R, tier, seed, driver_ok):
                     except Exception as e:
                         if not (name.startswith('SDML') and isinstance(e, RuntimeError)):
                             R.violation(f'{name}[refit]/fit-raises/{type(e).__name__}', f'{name} refit raised {type(e).__name__}: {str(e)[:200]}', case)
+    # ---- class means on a line (a rank-deficient between-class scatter): 'lda' / 'auto' still give the requested shape
+    from metric_learn import NCA, LMNN
+    for rep in range(2 if not thorough else 8):
+        dd = int(rng.randint(3, 6)); ncl = int(rng.randint(3, 5)); nco = 2
+        dirn = rng.randn(dd)
+        Xc = np.vstack([np.outer(np.ones(9), c_ * dirn) + 0.3 * rng.randn(9, dd) for c_ in range(ncl)]); yc = np.repeat(np.arange(ncl), 9)
+        for c_ in range(ncl):
+            Xc[yc == c_] += c_ * dirn - Xc[yc == c_].mean(0)            # class means exactly collinear
+        for cls_ in (NCA, LMNN):
+            for init_ in ('lda', 'auto'):
+                case = {'est': cls_.__name__, 'params': {'init': init_, 'n_components': nco}, 'X': Xc, 'y': yc, 'note': 'collinear class means'}
+                R.case(('c03-collinear', cls_.__name__, init_, Xc.tobytes().hex()[:40]), True, branch='lda-rank-deficient')
+                try:
+                    with warnings.catch_warnings():
+                        warnings.simplefilter('ignore')
+                        est = cls_(init=init_, n_components=nco, max_iter=3)
+                        ret = est.fit(Xc, yc)
+                    check_model(R, cls_.__name__, est, ret, Xc, dd, nco, False, False, case)
+                except Exception as e:
+                    R.violation(f'{cls_.__name__}/fit-raises/{type(e).__name__}', f'{cls_.__name__}(init={init_!r}, n_components={nco}) on data with collinear class means raised {type(e).__name__}: {str(e)[:120]}', case)
     # correspondence of the generated _check_n_components with the real one
     for d in range(1, 9):
         for nc in [None] + list(range(-2, d + 3)):
